@@ -197,3 +197,72 @@ def random_text(rng):
                                        rng.randint(0x1f600, 0x1f64f)])) for _ in range(n))
     pool = GARBAGE + ELEMENTS + NAMES + ['c1', 'c2', 'single', 'double', 'any', '1', '2', '=2', '>=', 'H', 'cis']
     return ' '.join(rng.choice(pool) for _ in range(rng.randint(0, 14)))
+
+
+# ---------------------------------------------------------------------- things that look like layout but are not
+# The grammar tables know exactly one kind of layout: the characters of `Parser.filler`.  Anything else a reader might be
+# tempted to skip — remarks in the styles of other languages, block remarks, line continuations, exotic blanks and line
+# separators — is NOT in the tables the model is regenerated from, so texts carrying them are outside the language: they
+# must be refused, at a position inside the text, and never change what the rest of the text means.
+LINE_REMARKS = ['//', '#', '--', ';', '%', '!', "'", 'REM ', '///', '\\', '/', '::', '@', '|', '~']
+BLOCK_REMARKS = [('/*', '*/'), ('(*', '*)'), ('<!--', '-->'), ('{-', '-}'), ('"""', '"""'), ('"', '"'), ('/+', '+/'), ('#|', '|#')]
+BLANK_LIKE = ['\r', '\r\n', '\x0b', '\x0c', '\x1c', '\x1d', '\x1e', '\x1f', '\x85', '\xa0', ' ', ' ', ' ', ' ',
+              ' ', ' ', ' ', '　', '﻿', '​', '‍', '\x00', '\\\n', '\x08', '\x1a', '\x7f']
+REMARK_WORDS = ['', 'to be written', 'TODO', 'C labeled c9', 'see Table 2', '}', '{', '}}', 'fragment f{ C labeled c1 }', 'é', '٣', '//', '*/']
+
+
+def multiline(rng, toks, p=0.35):
+    """lay the tokens out over several lines (what hand-written RING in a YAML block looks like)"""
+    out = []
+    for i, t in enumerate(toks):
+        if i:
+            out.append(rng.choice(['\n', '\n ', '\n  ', '\n\n']) if rng.random() < p else ' ')
+        out.append(t)
+    return ''.join(out)
+
+
+def junk_texts(rng, toks, k):
+    """-> k entries (kind, text): the token list laid out over several lines with ONE piece of would-be layout in it.
+    kinds: tail remark on the last line without / with a final line break (the tokens after the cut are what is `commented
+    out': the text is usually incomplete at that point), a line remark between tokens, a block remark between tokens, a
+    blank-like character between or instead of blanks, a text that is nothing but a remark.  Every opener of LINE_REMARKS,
+    BLOCK_REMARKS and BLANK_LIKE is used in turn (the caller passes a running counter through `rng.junk_i`)."""
+    out = []
+    n = len(toks)
+    for _ in range(k):
+        c = getattr(rng, 'junk_i', 0)
+        rng.junk_i = c + 1
+        kind = ['tail', 'tail', 'tail_nl', 'between', 'block', 'blank', 'only'][c % 7]
+        op = LINE_REMARKS[(c // 7) % len(LINE_REMARKS)]
+        i = rng.randint(0, n) if rng.random() < 0.8 else n
+        j = rng.randint(i, n)
+        head = multiline(rng, toks[:i])
+        words = ' '.join(toks[i:j]) if rng.random() < 0.7 else rng.choice(REMARK_WORDS)
+        sep = rng.choice(['\n', '\n', '\n ', '\n   ', ' ', '  ', '', '\n\n']) if head else rng.choice(['', '\n\n   ', ' ', '\n'])
+        if kind == 'tail':
+            text = head + sep + op + rng.choice(['', ' ']) + words
+        elif kind == 'tail_nl':
+            text = head + sep + op + ' ' + words + rng.choice(['\n', '\n\n', '\n '])
+        elif kind == 'between':
+            text = head + sep + op + ' ' + words + '\n' + multiline(rng, toks[j:] if rng.random() < 0.5 else toks[i:])
+        elif kind == 'block':
+            a, b = BLOCK_REMARKS[(c // 7) % len(BLOCK_REMARKS)]
+            closed = rng.random() < 0.7
+            text = head + sep + a + ' ' + words + (' ' + b if closed else '') + rng.choice([' ', '\n', '']) + \
+                multiline(rng, toks[i:] if closed else [])
+        elif kind == 'blank':
+            ch = BLANK_LIKE[(c // 7) % len(BLANK_LIKE)]
+            how = rng.random()
+            rest = multiline(rng, toks[i:])
+            if how < 0.4:
+                text = head + ch + rest                                    # instead of the blank
+            elif how < 0.7:
+                text = head + ' ' + ch + ' ' + rest                        # between blanks
+            elif how < 0.85:
+                text = multiline(rng, toks) + ch                           # after the last token
+            else:
+                text = ch + multiline(rng, toks)                           # before the first
+        else:
+            text = rng.choice(['', '\n\n   ', ' ', '\n']) + op + rng.choice(['', ' ']) + rng.choice(REMARK_WORDS + [' '.join(toks)])
+        out.append(('junk_' + kind, text))
+    return out
